@@ -22,6 +22,8 @@
 //! records, each once, in delivery order, each field as sent (signo, code SI_QUEUE, pid, value);
 //! without records (o) at least once and at most once per delivery; and if the outer call did
 //! not report the new delivery, a following `wait()` does not block and it is reported then.
+//! Finally a LATER delivery is made when everything has been consumed: `wait()` must wake up for
+//! it and it must come out exactly once.
 #![cfg(all(target_os = "linux", target_arch = "x86_64"))]
 use std::arch::asm;
 use std::fmt::Write as _;
@@ -315,8 +317,39 @@ where
             bad.push(format!("EXTRA SIGUSR1 yielded {} times for {} deliveries", got_s, pre_s + 1));
         }
     }
-    let line = format!("K {} {} | outer{} | {}rest{}\n", k, if bad.is_empty() { "OK".to_string() } else { format!("BAD {}", bad.join("; ")) },
-                       show(&got_outer), if waited { "waited " } else { "" }, show(&rest));
+    // a LATER delivery, after everything above has been consumed: the consumer goes to sleep in
+    // wait() and must be woken by it and be handed it (exactly once)
+    let later_seq = inner_seq + 1;
+    queue(S, later_seq);
+    let mut later: Got = Vec::new();
+    for x in signals.wait() {
+        later.push(x.describe());
+    }
+    for x in signals.pending() {
+        later.push(x.describe());
+    }
+    let later_s: Vec<&(i32, Option<(i32, i32, usize)>)> = later.iter().filter(|(sig, _)| *sig == S).collect();
+    if later.iter().any(|(sig, _)| *sig != S) {
+        bad.push(format!("EXTRA after a later delivery of SIGUSR1 alone the iterator yielded{}", show(&later)));
+    }
+    if raw {
+        let vals: Vec<usize> = later_s.iter().map(|(_, r)| r.unwrap().2).collect();
+        if !vals.contains(&later_seq) {
+            bad.push(format!("LOST the record of a later delivery (value {}) never came out (yielded {:?})", later_seq, vals));
+        }
+        if vals.iter().any(|v| *v != later_seq) || vals.len() > 1 {
+            bad.push(format!("EXTRA a later delivery (value {}) yielded records {:?}", later_seq, vals));
+        }
+    } else {
+        if later_s.is_empty() {
+            bad.push("LOST a later delivery of SIGUSR1 was not reported".to_string());
+        }
+        if later_s.len() > 1 {
+            bad.push(format!("EXTRA a later delivery of SIGUSR1 was reported {} times", later_s.len()));
+        }
+    }
+    let line = format!("K {} {} | outer{} | {}rest{} | later{}\n", k, if bad.is_empty() { "OK".to_string() } else { format!("BAD {}", bad.join("; ")) },
+                       show(&got_outer), if waited { "waited " } else { "" }, show(&rest), show(&later));
     out(&line);
     if child {
         unsafe { libc::_exit(0) };
